@@ -3419,7 +3419,10 @@ func (p *parser) convertExprToBinding(expr js_ast.Expr, invalidLog invalidLog) (
 				isSpread = true
 				item = i.Value
 				if _, ok := item.Data.(*js_ast.EIdentifier); !ok {
-					p.markSyntaxFeature(compat.NestedRestBinding, p.source.RangeOfOperatorAfter(item.Loc, "["))
+					// Note: This must be deferred because the caller may end up deciding
+					// that this expression is not going to be used as a binding after all
+					invalidLog.syntaxFeatures = append(invalidLog.syntaxFeatures,
+						syntaxFeature{feature: compat.NestedRestBinding, token: p.source.RangeOfOperatorAfter(item.Loc, "[")})
 				}
 			}
 			binding, initializerOrNil, log := p.convertExprToBindingAndInitializer(item, invalidLog, isSpread)
